@@ -277,6 +277,7 @@ SIGNATURES = {
     'F17': 'C07:F17-nrt-tail-marker-before-later-bundle',
     'F11': 'C05:F11-nrt-tempo-change-with-pending-task',
     'MUT': 'C07:nrt-score-add-mutates-callers-nested-bundle-lists',
+    'FN': 'C07:nrt-function-task-bundle-absolute',
 }
 
 
@@ -1327,3 +1328,39 @@ def race_expected(pr, o, mode):
             return [('bundle sent from the MAIN thread with latency %s while %s runs slow tasks: the time it is stamped from (timetag - latency)' % (pr['lat'], {'S': 'SystemClock', 'T': 'a TempoClock', 'A': 'AppClock'}[pr['host']]),
                      str(used), 'the current time: between the clock readings %s (before the call) and %s (after it)' % (before, after))]
     return []
+
+
+# ------------------------------------------------------------------ function tasks that send: plain functions woken by a clock
+def gen_fntask(rng, k, rt=False):
+    """clock.sched(delta, f) on every kind of clock, from the main thread and from a routine on every kind of clock; f sends a bundle
+    (nested, every latency kind) when it is woken at logical time t, and once more when it returns a number.  A function task runs
+    outside any routine, at the CURRENT time t of its wake-up: its bundle is due at t + latency (RT: timetag of t + latency)."""
+    kinds = [c for c in CLOCK_KINDS if not (rt and c == 'A')]
+    clock = kinds[k % len(kinds)]
+    frm = ([None] + kinds)[(k // len(kinds)) % (len(kinds) + 1)]
+    scale = Fraction(1, 32) if rt else Fraction(1)
+    q_ = lambda: str(Fraction(rng.choice(['1/8', '1/4', '3/8', '1/2', '1', '2'])) * scale)
+    lat = rng.choice(LATS)
+    return {'tempos': rng.sample(['2', '1/2', '4'], 2), 'clock': clock, 'from': frm, 'delta': rng.choice([q_(), q_(), '0']),
+            'start': q_(), 'adv': q_(), 'lat': lat, 'es': gen_elems(rng, lat, 2, valid=rng.random() < 0.9),
+            'again': rng.choice([None, q_()]), 'ints': rng.random() < 0.4}
+
+
+def fntask_times(pr, o, mode):
+    """expected logical times of the runs of the function (harness oracle), or None when not determined (RT from the main thread)"""
+    F = Fraction
+    tempo = [F(t) for t in pr['tempos']]
+
+    def dur(c, beats):
+        return beats if c in ('S', 'A') else beats / tempo[c[1]]
+    if pr['from'] is None:
+        if mode == 'rt':
+            return None
+        t0 = F(0)
+    else:
+        t0 = F(o['T'])
+    t1 = t0 + dur(pr['clock'], F(pr['delta']))
+    out = [t1]
+    if pr.get('again') is not None:
+        out.append(t1 + dur(pr['clock'], F(pr['again'])))
+    return out
